@@ -592,8 +592,12 @@ Qed.
 Lemma on_retract_response_R s w ids s' : on_retract_response s w ids = Ok s' -> R s s'.
 Proof.
   unfold on_retract_response. intros H. destruct (retract_response_states _ w ids []) as [c' groups] eqn:E.
-  eapply R_trans; [|eapply send_redirected_R; exact H].
-  apply R_core. intros Hw. eapply retract_response_states_wids; eassumption.
+  apply bind_ok in H. destruct H as (s2 & H & H2).
+  assert (R2 : R s s2).
+  { eapply R_trans; [|eapply send_redirected_R; exact H].
+    apply R_core. intros Hw. eapply retract_response_states_wids; eassumption. }
+  destruct (retract_wakes _ _ _ _); inversion H2; subst s'; clear H2; [|exact R2].
+  eapply R_trans; [exact R2|]. apply R_eq. reflexivity.
 Qed.
 
 Lemma lost_retracting_R l : forall s w s', lost_retracting s w l = Ok s' -> R s s'.
